@@ -23,6 +23,11 @@ pub struct Case {
     pub m: usize,
     pub schedule: Vec<bool>,
     pub threads: usize,
+    /// deterministic library calls repeated, with identical arguments, before every generation (what a stateless
+    /// worker does per request): 0 none, 1 key re-derived from the same key material, 2 sign, 3 verify + proof_verify,
+    /// 4 all of them
+    #[serde(default)]
+    pub between: u8,
 }
 
 fn strat(n: usize) -> impl Strategy<Value = Case> {
@@ -34,8 +39,9 @@ fn strat(n: usize) -> impl Strategy<Value = Case> {
         prop::sample::select(vec![0usize, 2]),
         prop::collection::vec(prop::bool::weighted(0.25), n..=n),
         prop::sample::select(vec![1usize, 1, 4, 16]),
+        0u8..5,
     )
-        .prop_map(|(suite, seed_a, seed_b, u, m, schedule, threads)| Case { suite, seed_a, seed_b, u, m, schedule, threads })
+        .prop_map(|(suite, seed_a, seed_b, u, m, schedule, threads, between)| Case { suite, seed_a, seed_b, u, m, schedule, threads, between })
 }
 
 /// everything one generation hands out, plus what the witness holder recomputes from it
@@ -59,6 +65,25 @@ struct Inputs<CS: BbsCiphersuite> {
     cm: Vec<Vec<u8>>,
     disclosed: Vec<usize>,
     sig: [u8; 80],
+    key: KeySpec,
+}
+
+/// the deterministic calls of `Case::between`, with the same arguments every time
+fn between_calls<CS: BbsCiphersuite>(inp: &Inputs<CS>, kind: u8, last_proof: Option<&str>) {
+    let pk = inp.kp.public_key();
+    if kind == 1 || kind == 4 {
+        let _ = keypair::<CS>(&inp.key);
+    }
+    if kind == 2 || kind == 4 {
+        let _ = Signature::<BBSplus<CS>>::sign(Some(&inp.msgs), inp.kp.private_key(), pk, Some(&inp.header));
+    }
+    if kind == 3 || kind == 4 {
+        let _ = Signature::<BBSplus<CS>>::from_bytes(&inp.sig).map(|s| s.verify(pk, Some(&inp.msgs), Some(&inp.header)));
+        if let Some(p) = last_proof.and_then(|p| hex::decode(p).ok()) {
+            let dm: Vec<Vec<u8>> = inp.disclosed.iter().map(|&i| inp.msgs[i].clone()).collect();
+            let _ = PoKSignature::<BBSplus<CS>>::from_bytes(&p).map(|p| p.proof_verify(pk, Some(&dm), Some(&inp.disclosed), Some(&inp.header), Some(&inp.ph)));
+        }
+    }
 }
 
 fn inputs<CS: BbsCiphersuite>(seed: u32, u: usize, m: usize) -> Inputs<CS> {
@@ -84,7 +109,7 @@ fn inputs<CS: BbsCiphersuite>(seed: u32, u: usize, m: usize) -> Inputs<CS> {
     let header = b"hdr".to_vec();
     let ph = b"ph".to_vec();
     let sig = Signature::<BBSplus<CS>>::sign(Some(&msgs), kp.private_key(), kp.public_key(), Some(&header)).unwrap().to_bytes();
-    Inputs { kp, header, ph, msgs, cm, disclosed: vec![0], sig }
+    Inputs { kp, header, ph, msgs, cm, disclosed: vec![0], sig, key }
 }
 
 /// one generation of every randomised artefact, all from identical inputs
@@ -322,6 +347,7 @@ fn run_history<CS: BbsCiphersuite>(rep: &Report, ck: &str, c: &Case) -> CheckRes
     let mut gen_err: Option<String> = None;
     if c.threads <= 1 {
         for &b in &c.schedule {
+            between_calls::<CS>(if b { &ib } else { &ia }, c.between, gens.last().filter(|g| (g.input == 1) == b).map(|g| g.proof.as_str()));
             match if b { generate::<CS>(&ib, 1) } else { generate::<CS>(&ia, 0) } {
                 Ok(g) => gens.push(g),
                 Err(e) => {
@@ -337,10 +363,15 @@ fn run_history<CS: BbsCiphersuite>(rep: &Report, ck: &str, c: &Case) -> CheckRes
             let hs: Vec<_> = parts
                 .iter()
                 .map(|part| {
-                    let (ia, ib, barrier) = (&ia, &ib, &barrier);
+                    let (ia, ib, barrier, between) = (&ia, &ib, &barrier, c.between);
                     s.spawn(move || {
                         barrier.wait();
-                        part.iter().map(|&b| if b { generate::<CS>(ib, 1) } else { generate::<CS>(ia, 0) }).collect::<Result<Vec<_>, _>>()
+                        part.iter()
+                            .map(|&b| {
+                                between_calls::<CS>(if b { ib } else { ia }, between, None);
+                                if b { generate::<CS>(ib, 1) } else { generate::<CS>(ia, 0) }
+                            })
+                            .collect::<Result<Vec<_>, _>>()
                     })
                 })
                 .collect();
@@ -456,19 +487,19 @@ pub fn run(ctx: &Ctx, rep: &Report) -> Meta {
     let shapes: &[(usize, usize)] = ctx.tier.pick(&[(28, 0), (33, 31), (40, 2), (70, 40), (3, 64)], &[(28, 0), (33, 31), (40, 2), (70, 40), (3, 64), (130, 130), (260, 3), (3, 260), (600, 600)]);
     for (k, &(u, m)) in shapes.iter().enumerate() {
         for suite in [SuiteId::Sha256, SuiteId::Shake256] {
-            large.push(Case { suite, seed_a: (ctx.seed as u32).wrapping_add(7 * k as u32 + 1), seed_b: 0, u, m, schedule: vec![false; ctx.tier.pick(4, 12)], threads: 1 + 3 * (k % 2) });
+            large.push(Case { suite, seed_a: (ctx.seed as u32).wrapping_add(7 * k as u32 + 1), seed_b: 0, u, m, schedule: vec![false; ctx.tier.pick(4, 12)], threads: 1 + 3 * (k % 2), between: (k % 5) as u8 });
         }
     }
     // every count of hidden / committed messages in a contiguous range, two generations each
     for u in 0..ctx.tier.pick(72usize, 140usize) {
-        large.push(Case { suite: if u % 2 == 0 { SuiteId::Sha256 } else { SuiteId::Shake256 }, seed_a: (ctx.seed as u32).wrapping_add(1000 + u as u32), seed_b: 0, u, m: (u * 7 + 3) % 73, schedule: vec![false; 2], threads: 1 });
+        large.push(Case { suite: if u % 2 == 0 { SuiteId::Sha256 } else { SuiteId::Shake256 }, seed_a: (ctx.seed as u32).wrapping_add(1000 + u as u32), seed_b: 0, u, m: (u * 7 + 3) % 73, schedule: vec![false; 2], threads: 1, between: (u % 5) as u8 });
     }
     par_items(ctx, rep, "large-shapes", &large, |c| check(rep, "large-shapes", c));
     // identical inputs in fresh processes (per-process seeding defects)
     let procs: Vec<Case> = [SuiteId::Sha256, SuiteId::Shake256]
         .iter()
         .enumerate()
-        .map(|(k, &suite)| Case { suite, seed_a: (ctx.seed as u32).wrapping_add(k as u32), seed_b: 0, u: [1, 3][k], m: [2, 0][k], schedule: vec![false; ctx.tier.pick(24, 200)], threads: 1 })
+        .map(|(k, &suite)| Case { suite, seed_a: (ctx.seed as u32).wrapping_add(k as u32), seed_b: 0, u: [1, 3][k], m: [2, 0][k], schedule: vec![false; ctx.tier.pick(24, 200)], threads: 1, between: 0 })
         .collect();
     par_items(ctx, rep, "fresh-processes", &procs, |c| child_processes(rep, "fresh-processes", c, ctx.tier.pick(3, 8)));
     if !rep.aborted() {
@@ -478,7 +509,7 @@ pub fn run(ctx: &Ctx, rep: &Report) -> Meta {
         }
     }
     Meta {
-        rule: "history = a generated schedule of n generations (small shapes U in {0,1,3}, M in {0,2}); large shapes with up to 70 / 600 hidden and 64 / 600 committed messages and EVERY count of hidden messages 0..72 / 0..140 with two generations each; (n = 64 quick / 1000 thorough) over two input sets (same input repeated most of the time), on 1, 4 or 16 threads released from a barrier, \
+        rule: "history = a generated schedule of n generations (small shapes U in {0,1,3}, M in {0,2}); large shapes with up to 70 / 600 hidden and 64 / 600 committed messages and EVERY count of hidden messages 0..72 / 0..140 with two generations each; (n = 64 quick / 1000 thorough) over two input sets (same input repeated most of the time), on 1, 4 or 16 threads released from a barrier, with the deterministic calls of a stateless worker (key re-derived from the same key material / sign / verify + proof_verify / all of them) repeated with identical arguments before every generation in four fifths of the histories, \
                plus identical inputs in 3 (quick) / 8 (thorough) fresh child processes; each generation = proof_gen + commit + blind_sign + blind_proof_gen + BlindFactor::random + KeyPair::random + generate_random_secret; \
                oracle (witness holder): e~ = e^ - e*c, m~_j = m^_j - m_j*c, s~ = s^ - blind*c are non-zero, >= 2^128, pairwise distinct over the whole pooled history (also vs. challenges, blind factors, random keys), \
                consecutive values differ by >= 2^128 both ways, Abar/Bbar/D/commitments/random secrets pairwise distinct, two-transcript extractor returns neither e nor a hidden message, \
@@ -495,7 +526,7 @@ pub fn replay(_ctx: &Ctx, rep: &Report, ck: &str, case: &Value) -> CheckResult {
     if ck == "bit-balance" {
         // the statistic is over a whole run: regenerate 40 histories and judge again
         for k in 0..40u32 {
-            let c = Case { suite: if k % 2 == 0 { SuiteId::Sha256 } else { SuiteId::Shake256 }, seed_a: k, seed_b: k + 1, u: 3, m: 2, schedule: vec![false; 64], threads: 1 };
+            let c = Case { suite: if k % 2 == 0 { SuiteId::Sha256 } else { SuiteId::Shake256 }, seed_a: k, seed_b: k + 1, u: 3, m: 2, schedule: vec![false; 64], threads: 1, between: 0 };
             check(rep, ck, &c)?;
         }
         return match judge_bits() {
